@@ -511,11 +511,14 @@ def ptb_delete_traces(tree, **params):
     for trace in traces:
         tracelabel = trees.parse_label(trace.data['word'])
         coindex = str(tracelabel.coindex)
-        if not keepcoindex:
-            tracelabel.coindex = ""
+        tracelabel.coindex = ""
         tracelabel.gapindex = ""
+        # the labels to be kept are given without co-index
+        barelabel = trees.format_label(tracelabel)
+        if keepcoindex:
+            tracelabel.coindex = coindex
         tracelabel = trees.format_label(tracelabel)
-        if keepall or tracelabel in keep:
+        if keepall or barelabel in keep:
             if len(coindex) > 0:
                 index_to_traces[coindex].append(trace)
             trace.data['label'] = tracelabel
